@@ -1241,6 +1241,94 @@ def vec_extend(I, st, depth, callee, args, body, ln):
     return Agg(())
 
 
+# Rust's char::is_whitespace (Unicode White_Space)
+_RUST_WS = set("\t\n\x0b\x0c\r \x85\xa0\u1680\u2000\u2001\u2002\u2003\u2004\u2005\u2006\u2007\u2008\u2009\u200a"
+               "\u2028\u2029\u202f\u205f\u3000")
+
+
+def _str_of(I, st, v):
+    n = 0
+    while isinstance(v, Ref) and n < 4:
+        v = I.load(st, v.alloc, v.path)
+        n += 1
+    return v
+
+
+def _char_pred(I, st, depth, pat, body, ln):
+    """pattern argument of trim_matches & co. -> python predicate on a character, or None when not decidable"""
+    pat = _str_of(I, st, pat) if isinstance(pat, Ref) and not isinstance(I.load(st, pat.alloc, pat.path), FnV) else pat
+    if isinstance(pat, int) and not isinstance(pat, bool):
+        return lambda ch: ord(ch) == pat
+    if isinstance(pat, Str) and len(pat.s) == 1:
+        return lambda ch: ch == pat.s
+    pv = _str_of(I, st, pat) if isinstance(pat, Ref) else pat
+    if isinstance(pv, Arr) and pv.e and all(isinstance(x, int) and not isinstance(x, bool) for x in pv.e):
+        chars_ = {x for x in pv.e}          # a slice or array of characters: any of them
+        return lambda ch: ord(ch) in chars_
+    if isinstance(pat, (FnV, Ref)):
+        def pred(ch):
+            r = I.call_value(st, depth, pat, [ord(ch)], body, ln)
+            if r in (0, 1, True, False):
+                return bool(r)
+            raise ValueError("undecided")
+        return pred
+    return None
+
+
+def _mk_trim(front, back, whitespace):
+    def f(I, st, depth, callee, args, body, ln):
+        s = _str_of(I, st, args[0])
+        if not isinstance(s, Str):
+            return TOP
+        if whitespace:
+            pred = lambda ch: ch in _RUST_WS
+        else:
+            pred = _char_pred(I, st, depth, args[1], body, ln)
+            if pred is None:
+                return TOP
+        t = s.s
+        try:
+            if front:
+                while t and pred(t[0]):
+                    t = t[1:]
+            if back:
+                while t and pred(t[-1]):
+                    t = t[:-1]
+        except ValueError:
+            return TOP
+        return Str(t)
+    return f
+
+
+def str_contains(I, st, depth, callee, args, body, ln):
+    s = _str_of(I, st, args[0])
+    pat = _str_of(I, st, args[1]) if isinstance(args[1], Ref) else args[1]
+    if isinstance(s, Str):
+        if isinstance(pat, int) and not isinstance(pat, bool):
+            return 1 if chr(pat) in s.s else 0
+        if isinstance(pat, Str):
+            return 1 if pat.s in s.s else 0
+    return frozenset((0, 1))
+
+
+def _int_minmax(which):
+    def f(I, st, depth, callee, args, body, ln):
+        a, b = args[0], args[1]
+        if isinstance(a, Ref):
+            a = I.load(st, a.alloc, a.path)
+        if isinstance(b, Ref):
+            b = I.load(st, b.alloc, b.path)
+        if isinstance(a, D.Fl) or isinstance(b, D.Fl) or not (is_scalar(a) and is_scalar(b)):
+            return TOP
+        va, vb = D.values(a), D.values(b)
+        if va is not None and vb is not None and len(va) * len(vb) <= 4096:
+            return D.norm_set(frozenset((min if which == "min" else max)(x, y) for x in va for y in vb))
+        (la, ha), (lb, hb) = D.bounds(a), D.bounds(b)
+        lo, hi = ((min(la, lb), min(ha, hb)) if which == "min" else (max(la, lb), max(ha, hb)))
+        return lo if lo == hi else D.Rng(lo, hi)
+    return f
+
+
 def slice_contains(I, st, depth, callee, args, body, ln):
     v = deref(I, st, args[0])
     x = deref(I, st, args[1])
@@ -1297,25 +1385,39 @@ def vec_index(I, st, depth, callee, args, body, ln):
                 return BOT
             end = fs[0]
             if isinstance(v, Arr) and isinstance(end, int):
-                a = I.new_alloc(st, "subslice", Arr(v.e[:end]))
+                a = I.site_alloc(st, "subslice", Arr(v.e[:end]), body, ln)
                 return Ref(a, (), False)
-            a = I.new_alloc(st, "subslice", ArrS(_vec_elem(v), end if is_scalar(end) else USIZE_TOP))
+            a = I.site_alloc(st, "subslice", ArrS(_vec_elem(v), end if is_scalar(end) else USIZE_TOP), body, ln)
             return Ref(a, (), False)
         if "RangeFrom<" in ga and len(fs) == 1:
             ok = D.cmpop("Le", fs[0], n) if (is_scalar(fs[0]) and is_scalar(n)) else BOOL
             if not may_panic(ok, "range start out of bounds"):
                 return BOT
-            a = I.new_alloc(st, "subslice", ArrS(_vec_elem(v), USIZE_TOP))
+            a = I.site_alloc(st, "subslice", ArrS(_vec_elem(v), USIZE_TOP), body, ln)
             return Ref(a, (), False)
         if "RangeFull" in ga:
             return r
+        if ("RangeInclusive<" in ga or "RangeToInclusive<" in ga) and len(fs) in (1, 3):
+            # a..=b / ..=b : fails when b is usize::MAX, a > b + 1 or b + 1 > len
+            lo, hi = (0, fs[0]) if len(fs) == 1 else (fs[0], fs[1])
+            if is_scalar(lo) and is_scalar(hi) and is_scalar(n) and D.bounds(hi)[1] < (1 << 64) - 1:
+                hi1 = D.binop("Add", hi, 1, "usize")
+                ok1 = D.cmpop("Le", lo, hi1)
+                ok2 = D.cmpop("Le", hi1, n)
+                ok = 1 if (ok1 == 1 and ok2 == 1) else (0 if (ok1 == 0 or ok2 == 0) else BOOL)
+            else:
+                ok = BOOL
+            if not may_panic(ok, "inclusive range out of bounds"):
+                return BOT
+            a = I.site_alloc(st, "subslice", ArrS(_vec_elem(v), USIZE_TOP), body, ln)
+            return Ref(a, (), False)
         if len(fs) == 2:
             ok1 = D.cmpop("Le", fs[0], fs[1]) if (is_scalar(fs[0]) and is_scalar(fs[1])) else BOOL
             ok2 = D.cmpop("Le", fs[1], n) if (is_scalar(fs[1]) and is_scalar(n)) else BOOL
             ok = 1 if (ok1 == 1 and ok2 == 1) else (0 if (ok1 == 0 or ok2 == 0) else BOOL)
             if not may_panic(ok, "range out of bounds"):
                 return BOT
-            a = I.new_alloc(st, "subslice", ArrS(_vec_elem(v), USIZE_TOP))
+            a = I.site_alloc(st, "subslice", ArrS(_vec_elem(v), USIZE_TOP), body, ln)
             return Ref(a, (), False)
     I.ev("panic", body, ln, {"kind": "index", "callee": callee.get("def"), "msg": "unmodelled index", "may": True})
     return TOP
@@ -1459,6 +1561,17 @@ TABLE.update({
     "alloc::boxed::box_assume_init_into_vec_unsafe": box_into_vec,
     "alloc::vec::Vec::<T>::new": vec_new,
     "alloc::vec::Vec::<T, A>::push": vec_push,
+    "core::cmp::Ord::min": _int_minmax("min"),
+    "core::cmp::Ord::max": _int_minmax("max"),
+    "core::cmp::min": _int_minmax("min"),
+    "core::cmp::max": _int_minmax("max"),
+    "core::str::<impl str>::trim_matches": _mk_trim(True, True, False),
+    "core::str::<impl str>::trim_start_matches": _mk_trim(True, False, False),
+    "core::str::<impl str>::trim_end_matches": _mk_trim(False, True, False),
+    "core::str::<impl str>::trim": _mk_trim(True, True, True),
+    "core::str::<impl str>::trim_start": _mk_trim(True, False, True),
+    "core::str::<impl str>::trim_end": _mk_trim(False, True, True),
+    "core::str::<impl str>::contains": str_contains,
     "core::iter::traits::collect::Extend::extend": vec_extend,
     "alloc::vec::Vec::<T, A>::pop": vec_pop,
     "alloc::vec::Vec::<T, A>::len": vec_len,
@@ -1539,6 +1652,9 @@ RES_TABLE = {
     "<alloc::vec::Vec<T, A> as core::ops::index::Index<I>>::index": vec_index,
     "<alloc::vec::Vec<T, A> as core::ops::index::IndexMut<I>>::index_mut": vec_index,
     "core::slice::index::<impl core::ops::index::Index<I> for [T]>::index": vec_index,
+    "core::array::<impl core::ops::index::Index<I> for [T; N]>::index": vec_index,
+    "core::array::<impl core::ops::index::IndexMut<I> for [T; N]>::index_mut": vec_index,
+    "core::ops::range::RangeInclusive::<Idx>::new": lambda I, st, depth, callee, args, body, ln: Agg((args[0], args[1], 0)),
     "core::slice::index::<impl core::ops::index::IndexMut<I> for [T]>::index_mut": vec_index,
     "<core::option::Option<T> as core::cmp::PartialEq>::eq": option_eq("Eq"),
     "<core::option::Option<T> as core::cmp::PartialEq>::ne": option_eq("Ne"),
